@@ -88,7 +88,7 @@ var tmpSeq struct {
 }
 
 func scratchDir() string {
-	d := filepath.Join(verifDir, "build", "scratch", fmt.Sprint(os.Getpid()))
+	d := filepath.Join(buildDir, "scratch", fmt.Sprint(os.Getpid()))
 	os.MkdirAll(d, 0o755)
 	return d
 }
@@ -535,8 +535,8 @@ func writeEvidence(id string, p *Prop, tier string, seed int64, agg *runAgg, wal
 		"violations": violations,
 	}
 	b, _ := json.MarshalIndent(ev, "", " ")
-	os.MkdirAll(filepath.Join(verifDir, "evidence"), 0o755)
-	if err := os.WriteFile(filepath.Join(verifDir, "evidence", id+".json"), b, 0o644); err != nil {
+	os.MkdirAll(evidenceDir(), 0o755)
+	if err := os.WriteFile(filepath.Join(evidenceDir(), id+".json"), b, 0o644); err != nil {
 		die2("write evidence: %v", err)
 	}
 }
